@@ -573,3 +573,72 @@ B("b-unwrap-not-result", ["C14"],
 
 M("c14-trigger-returns-constant-when-not-executed", "C14", ["C14.none"],
   E(SYNC, "        return result if executed else None", "        return result if executed else False"))
+
+# ----------------------------------------------------------------------------------------- C05
+M("c05-async-after-ensure-future", "C05", ["C05.await", "C05.nofire", "C05.sibling"],
+  E(ASYNC, "        await self.sm._callbacks.async_call(transition.after.key, *args, **kwargs)\n",
+    "        asyncio.ensure_future(self.sm._callbacks.async_call(transition.after.key, *args, **kwargs))\n"),
+  E(ASYNC, "from typing import TYPE_CHECKING\n", "import asyncio\nfrom typing import TYPE_CHECKING\n"))
+M("c05-async-enter-not-awaited", "C05", ["C05.await", "C05.sibling"],
+  E(ASYNC, "            await self.sm._callbacks.async_call(target.enter.key, *args, **kwargs)\n",
+    "            self.sm._callbacks.async_call(target.enter.key, *args, **kwargs)\n"))
+M("c05-run-async-always-returns-coroutine", "C05", ["C05.facade"],
+  E(UT, """    try:
+        asyncio.get_running_loop()
+        return coroutine
+    except RuntimeError:
+        if not hasattr(_cached_loop, "loop"):
+            _cached_loop.loop = asyncio.new_event_loop()
+        return _cached_loop.loop.run_until_complete(coroutine)""", """    return coroutine"""))
+M("c05-global-loop-instead-of-thread-local", "C05", ["C05.facade"],
+  E(UT, "_cached_loop = threading.local()", "class _Holder:\n    pass\n\n\n_cached_loop = _Holder()"))
+B("b-send-returns-event-call-directly", ["C05", "C13"],
+  E(SM, """        result = event_instance(*args, **kwargs)
+        if not isawaitable(result):
+            return result
+        return run_async_from_sync(result)""", """        return event_instance(*args, **kwargs)"""),
+  note="Event.__call__ already resolves awaitables; send's own guard is redundant")
+M("c05-wrapper-call-awaits-nothing", "C05", ["C05.await", "C05.sibling"],
+  E(CB, """        value = self._callback(*args, **kwargs)
+        if isawaitable(value):
+            value = await value
+
+        if self.expected_value is not None:""", """        value = self._callback(*args, **kwargs)
+
+        if self.expected_value is not None:"""))
+M("c05-adapter-flag-always-false", "C05", ["C05.flag"],
+  E(DISP, "    signature_adapter.is_coroutine = sig.is_coroutine  # type: ignore[attr-defined]", "    signature_adapter.is_coroutine = False  # type: ignore[attr-defined]"))
+M("c05-adapter-flag-missing", "C05", ["C05.flag"],
+  E(DISP, "    signature_adapter.is_coroutine = sig.is_coroutine  # type: ignore[attr-defined]\n", ""))
+M("c05-engine-choice-inverted", ["C05", "C12"], ["C05.flag", "C12.engine"],
+  E(SM, """        if self._callbacks.has_async_callbacks:
+            return AsyncEngine(self, rtc=rtc)
+
+        return SyncEngine(self, rtc=rtc)""", """        if not self._callbacks.has_async_callbacks:
+            return AsyncEngine(self, rtc=rtc)
+
+        return SyncEngine(self, rtc=rtc)"""))
+M("c05-init-no-start", ["C05", "C11"], ["C05.start", "C11.who"],
+  E(SM, """        self._engine = self._get_engine(rtc)
+        self._engine.start()
+
+    def _get_engine""", """        self._engine = self._get_engine(rtc)
+
+    def _get_engine"""))
+M("c05-async-trigger-initial-not-awaited", "C05", ["C05.await", "C05.sibling"],
+  E(ASYNC, """            await self._activate(trigger_data, transition)
+            return self._sentinel""", """            self._activate(trigger_data, transition)
+            return self._sentinel"""))
+M("c05-has-async-only-first-executor", "C05", ["C05.flag"],
+  E(CB, """        self.has_async_callbacks = any(
+            callback._iscoro for executor in self._registry.values() for callback in executor
+        )""", """        self.has_async_callbacks = any(
+            callback._iscoro for executor in list(self._registry.values())[:1] for callback in executor
+        )"""))
+M("c05-async-gather-return-exceptions", "C05", ["C05.sibling", "C14.collect"],
+  E(CB, """                if callback.condition(*args, **kwargs)
+            )
+        )""", """                if callback.condition(*args, **kwargs)
+            ),
+            return_exceptions=True,
+        )"""), note="exceptions of async callbacks would be returned as results instead of raised")
